@@ -2,7 +2,7 @@
    each is the property itself as a decision procedure over what the harness
    recorded (op, observation, digest of the server tables after the op), written
    from the property text and independent of model/Hub.v's step function. *)
-From Coq Require Import List NArith Bool.
+From Coq Require Import List NArith ZArith Bool.
 From Verif Require Export corr.Run_Hub.
 Import ListNotations.
 Open Scope N_scope.
@@ -151,6 +151,14 @@ Definition hello_creates (nb : N) (h : hello) : option (N * N * N) :=   (* kind,
   match h with
   | HV1 b u false => if b <? nb then Some (0, b, u) else None
   | HInternal b 0 _ _ => if b <? nb then Some (1, b, 0) else None
+  | HV2 b u t =>
+      (* "a protocol 2.0 token signed with an RSA/ECDSA/Ed25519 key published by that configured backend
+         and currently time-valid" (clocks may differ by a minute) *)
+      if (b <? nb) && (t.(t_alg) <? 7) && N.eqb t.(t_signer) (b + 1)
+         && match t.(t_exp) with Some e => (-60 <? e)%Z | None => false end
+         && match t.(t_iat) with Some i => (i <=? 60)%Z | None => true end
+         && match t.(t_nbf) with Some n => (n <=? 60)%Z | None => true end
+      then Some (0, b, u) else None
   | _ => None
   end.
 
@@ -441,6 +449,13 @@ Definition step_C06 (ps : pstate) (o : op) (ob : obs) (dg : digest) : bool :=
                     | _ =>
                       match find_sd dg n with
                       | Some y => optN_eqb y.(d_conn) (Some c) && opt_pair_eqb y.(d_room) x.(d_room) && N.eqb y.(d_pending) 0
+                                  (* ... including the notice that it is in no room any more: what the client can
+                                     reconstruct from the room events it got on all its connections is the server's room *)
+                                  && match y.(d_room), aget (update_views pd dg ob ps.(ps_view)) n with
+                                     | None, Some (Some _) => false
+                                     | Some k, Some (Some (r, _)) => N.eqb (snd k) r
+                                     | Some _, Some None => false
+                                     | _, _ => true end
                       | None => false end
                       (* a second resume takes over: the previous connection is told and closed *)
                       && match x.(d_conn) with
